@@ -206,9 +206,9 @@ func cmdCheck(args []string) int {
 		seed, _ = strconv.Atoi(s)
 	}
 	thorough := *tier == "thorough"
-	to := 10
+	to := 30
 	if thorough {
-		to = 60
+		to = 120
 	}
 	if *timeout > 0 {
 		to = *timeout
@@ -262,6 +262,32 @@ func cmdCheck(args []string) int {
 		}
 	}
 	notClaimedPre := loadNotClaimed()
+	var deferred []string
+	if !thorough {
+		// obligations that discharge, but not well within the quick budget, are checked in the thorough tier only
+		if data, err := os.ReadFile(filepath.Join(verifDir, "specs", "slow.txt")); err == nil {
+			slow := map[string]bool{}
+			for _, ln := range strings.Split(string(data), "\n") {
+				ln = strings.TrimSpace(ln)
+				if ln == "" || strings.HasPrefix(ln, "#") {
+					continue
+				}
+				if i := strings.Index(ln, "  # "); i >= 0 {
+					ln = strings.TrimSpace(ln[:i])
+				}
+				slow[ln] = true
+			}
+			var keep []obRef
+			for _, r := range todo {
+				if slow[r.j.vc.Obs[r.k].Name] {
+					deferred = append(deferred, r.j.vc.Obs[r.k].Name)
+					continue
+				}
+				keep = append(keep, r)
+			}
+			todo = keep
+		}
+	}
 	{
 		var keep []obRef
 		for _, r := range todo {
@@ -410,7 +436,7 @@ func cmdCheck(args []string) int {
 	}
 	wall := time.Since(t0).Seconds()
 	if !*noEvidence && *only == "" {
-		writeEvidence(v, *prop, *tier, seed, jobs, total, discharged, violations, knownHit, samples, perBackend, solverSecs, wall, notClaimedHit, ncovers)
+		writeEvidence(v, *prop, *tier, seed, jobs, total, discharged, violations, knownHit, samples, perBackend, solverSecs, wall, notClaimedHit, ncovers, deferred)
 	}
 	fmt.Printf("property %s: %d obligations over %d functions, %d discharged, %d known findings, %d violations, %d not claimed (%.1fs)\n", *prop, total, len(jobs), discharged, len(knownHit), violations, nNotClaimed, wall)
 	return exit
@@ -434,7 +460,7 @@ type Replay struct {
 	Notes      []string `json:"notes,omitempty"`
 }
 
-func writeEvidence(v *Verifier, prop, tier string, seed int, jobs []*fnJob, total, discharged, violations int, knownHit []string, samples []map[string]interface{}, perBackend map[string]map[string]int, solverSecs map[string]float64, wall float64, notClaimed []string, ncovers int) {
+func writeEvidence(v *Verifier, prop, tier string, seed int, jobs []*fnJob, total, discharged, violations int, knownHit []string, samples []map[string]interface{}, perBackend map[string]map[string]int, solverSecs map[string]float64, wall float64, notClaimed []string, ncovers int, deferred []string) {
 	var fns []string
 	assump := map[string]bool{}
 	lib := map[string]bool{}
@@ -488,6 +514,7 @@ func writeEvidence(v *Verifier, prop, tier string, seed int, jobs []*fnJob, tota
 			"samples":                  samples,
 			"partial_correctness_only": true,
 			"not_claimed_obligations":  notClaimed,
+			"deferred_to_thorough":     deferred,
 			"vacuity_covers_reachable": ncovers,
 		},
 	}
